@@ -77,7 +77,7 @@ pub fn decode_ssa(cur: &mut impl Src, max_gates: usize) -> SsaCircuit {
     let parties = (cur.u8() as usize) % (MAX_PARTIES + 1);
     let mut input_gates = Vec::new();
     for _ in 0..parties {
-        input_gates.push((cur.u8() as usize) % (MAX_BITS + 1));
+        input_gates.push((cur.u8() as usize) % MAX_BITS);
     }
     let n = (cur.u8() as usize) % (max_gates + 1);
     let mut gates = Vec::new();
@@ -109,6 +109,58 @@ pub fn decode_inputs(cur: &mut impl Src, shape: &[usize]) -> Vec<Vec<bool>> {
         inputs.push(v);
     }
     inputs
+}
+
+/// Executable form of validate()'s intended postcondition = eval()'s precondition for register circuits:
+/// every operand / output register exists and has been written before it is read, every input instruction
+/// names an existing bit of an existing party, every instruction writes an existing register.
+pub fn valid_spec_reg(c: &RegCircuit) -> Result<(), &'static str> {
+    let mut set = [false; 8];
+    if c.max_reg_count > 8 {
+        return Err("harness bound: max_reg_count > 8");
+    }
+    let n = c.max_reg_count;
+    for inst in &c.insts {
+        match inst.op {
+            Op::Xor(Xor(a, b)) | Op::And(And(a, b)) => {
+                if a.0 as usize >= n || b.0 as usize >= n {
+                    return Err("operand register does not exist");
+                }
+                if !set[a.0 as usize] || !set[b.0 as usize] {
+                    return Err("operand register read before it was written");
+                }
+            }
+            Op::Not(Not(a)) => {
+                if a.0 as usize >= n {
+                    return Err("operand register does not exist");
+                }
+                if !set[a.0 as usize] {
+                    return Err("operand register read before it was written");
+                }
+            }
+            Op::Input(Input { party, input }) => {
+                if party as usize >= c.input_regs.len() {
+                    return Err("input instruction names a party that does not exist");
+                }
+                if input as usize >= c.input_regs[party as usize] {
+                    return Err("input instruction names an input bit that does not exist");
+                }
+            }
+        }
+        if inst.out.0 as usize >= n {
+            return Err("instruction writes a register that does not exist");
+        }
+        set[inst.out.0 as usize] = true;
+    }
+    for o in &c.output_regs {
+        if o.0 as usize >= n {
+            return Err("output register does not exist");
+        }
+        if !set[o.0 as usize] {
+            return Err("output register was never written");
+        }
+    }
+    Ok(())
 }
 
 /// Reference interpreter for register circuits over `Option<bool>` registers: `None` = never written.
